@@ -76,6 +76,8 @@ def cases(draw):
         "tile": tile, "patches": patches, "invalid": inv, "nconf": nconf, "mask_vals": mask_vals,
         # the volume may announce a window offset (attribute offset_row_col); its frame carries whatever flags it carries
         "off": draw(st.sampled_from([0, 0, 1, 2])),
+        # ... and be a tile of a larger image: rows / columns labelled from another origin
+        "origin": draw(st.sampled_from([None, None, [0, 3], [7, 0], [20, 50]])),
     }
 
 
@@ -125,7 +127,8 @@ def body(ctx: Ctx, p: dict) -> None:
 
     cv_np, mask, conf = materialise(p)
     disps = p["disps"]
-    cvds = build.cost_volume_dataset(cv_np, disps, p["type"], p.get("off", 0), p["subpix"], mask, conf or None)
+    r0_, c0_ = p.get("origin") or (0, 0)
+    cvds = build.cost_volume_dataset(cv_np, disps, p["type"], p.get("off", 0), p["subpix"], mask, conf or None, row0=r0_, col0=c0_)
     before = build.snapshot(cvds)
     inv_cfg = p["invalid"]
     inv_val = math.nan if inv_cfg in ("NaN", "NaN-string") else float(inv_cfg)
@@ -159,6 +162,9 @@ def body(ctx: Ctx, p: dict) -> None:
                     ctx.violation("C03/confidence-bands-altered", name)
     elif "confidence_measure" in out:
         ctx.violation("C03/confidence-band-invented", "no band in the cost volume")
+    if list(out.coords["row"].data) != list(cvds.coords["row"].data) or list(out.coords["col"].data) != list(cvds.coords["col"].data):
+        ctx.violation("C03/map-coordinates-differ-from-the-volume", f"rows {out.coords['row'].data[:3]}.. cols {out.coords['col'].data[:3]}.. "
+                                                                    f"for a volume starting at {(r0_, c0_)}")
     iv = out["disparity_interval"].data
     if float(iv[0]) != float(disps[0]) or float(iv[1]) != float(disps[-1]):
         ctx.violation("C03/disparity-interval-wrong", f"{iv.tolist()} vs axis ends {disps[0]},{disps[-1]}")
@@ -182,6 +188,8 @@ def body(ctx: Ctx, p: dict) -> None:
     ctx.judged += int(cv_np.shape[0] * cv_np.shape[1])
     if p.get("off"):
         classes.append("window-offset>0")
+    if p.get("origin"):
+        classes.append("coordinates-not-from-0")
     if p.get("long"):
         classes.append("axis-longer-than-255-samples" if len(p["disps"]) > 255 else "axis-255-samples")
     ctx.case(p, nontrivial=bool(ties.any() and allnan_px.any() and regular.any()), classes=classes)
